@@ -1,6 +1,326 @@
-//! Harness for property C12 (stub: not built yet).
+//! C12 — vector search is sound, distance-ordered, and keeps its recall floor.
+//!
+//! A case is a list of op lines driving the real `anda_db_hnsw::HnswIndex` in-process:
+//!
+//! ```text
+//! cfg <dim> <metric e|c|i|m> <strategy s|h> <M> <efc> <efs> <maxlayers> <reconnect 0|1>
+//! ins <id> <bf16 hex>        rm <id>
+//! q <k> <f32 hex>            search_f32            qb <k> <bf16 hex>   search (bf16 query)
+//! qx <k> <nan|inf|dim> <f|b> the error branches of both entry points
+//! flush                      flush_with (nodes -> ids -> metadata) + purge_removed_nodes, all durable
+//! crash <cut>                the same flush cut after `cut mod (steps+1)` durable steps, then load_all of what is durable
+//! reindex                    after `crash`: remove + re-insert every document touched since the last complete flush
+//! reload                     complete flush, then load_all (round trip), continue on the loaded index
+//! g <dim> <metric> <efs> <maxlayers> <entry id> <entry layer> <ids csv>   explicit durable graph (header)
+//! gn <id> <layer> <bf16 hex> <l0;l1;…>                                     explicit node blob
+//! gload                                                                    load_all of the explicit graph
+//! ```
+//!
+//! * correspondence: at every query the real graph is extracted through the public API
+//!   (`node_ids` / `get_node_with`, entry point from the metadata blob the index itself serialises),
+//!   sent to the Lean model (`drv_c12`) together with the distance keys computed by the real
+//!   `DistanceMetric::compute_mixed`, and the model's answer must equal the real answer — same
+//!   ids, same order, same distance keys.  After `crash`/`gload` the loaded state is additionally
+//!   compared with the model's `load` prediction (see `store.rs`).
+//! * oracle (independent of the model and of the index internals): brute force over the harness's
+//!   own bf16-rounded copy of the live vectors: ≤ k, distinct, live, non-decreasing, reported
+//!   distance = recomputed metric (f64, tolerance `1e-3·scale + 1e-6`), `LoadedInv` after every
+//!   interrupted flush, recall@10 on the documented workloads (measured).
+mod recall;
+mod util;
+mod world;
+
+use std::collections::BTreeMap;
+use util::*;
+use vh_common::serde_json::json;
+use vh_common::*;
+use world::*;
+
+// ------------------------------------------------------------------------------------------------
+// generators
+// ------------------------------------------------------------------------------------------------
+
+fn gen_vec(r: &mut Rng, dim: usize, kind: u64) -> Vec<f32> {
+    // all values are bf16-representable
+    let v: Vec<f32> = match kind {
+        0 => (0..dim).map(|_| r.below(1 << 24) as f32 / (1u64 << 24) as f32).collect(), // uniform [0,1) as tests/recall.rs
+        1 => (0..dim).map(|_| r.range(-4, 4) as f32 * 0.5).collect(),                    // coarse grid: exact ties, duplicates
+        2 => (0..dim).map(|_| (r.below(1 << 16) as f32 / 65536.0 - 0.5) * 2.0).collect(), // centred
+        3 => {
+            // clustered
+            let c = r.below(3) as f32 * 10.0;
+            (0..dim).map(|_| c + r.below(1 << 12) as f32 / 4096.0).collect()
+        }
+        4 => vec![0.0; dim], // zero vector (cosine special case)
+        _ => (0..dim).map(|_| (r.below(1 << 16) as f32 / 65536.0 - 0.5) * 2000.0).collect(), // out of distribution
+    };
+    v.into_iter().map(round_bf16).collect()
+}
+
+fn pick_cfg(r: &mut Rng) -> Cfg {
+    let dim = if r.chance(1, 2) { *r.pick(&[2usize, 3, 4, 8, 16, 24, 32, 64]) } else { r.range(2, 64) as usize };
+    Cfg {
+        dim,
+        metric: *r.pick(&['e', 'c', 'i', 'm']),
+        strategy: *r.pick(&['s', 'h']),
+        m: *r.pick(&[2u8, 2, 3, 4, 6, 8, 16, 32]),
+        efc: *r.pick(&[1usize, 2, 4, 8, 16, 40, 200]),
+        efs: *r.pick(&[1usize, 1, 2, 3, 5, 10, 50]),
+        max_layers: *r.pick(&[1u8, 2, 3, 4, 16]),
+        reconnect: r.chance(1, 2),
+    }
+}
+
+fn gen_query(r: &mut Rng, cfg: &Cfg, stored: &BTreeMap<u64, Vec<f32>>, kind_bias: u64) -> String {
+    let n = stored.len() as u64;
+    let k = match r.below(8) {
+        0 => 1,
+        1 => 2,
+        2 => 3,
+        3 => 10,
+        4 => n.max(1),
+        5 => n + 1,
+        6 => r.range(1, (n + 2) as i64) as u64,
+        _ => *r.pick(&[5000u64, 4096, 4097, 100]),
+    };
+    let qv: Vec<f32> = match r.below(6) {
+        0 | 1 if n > 0 => {
+            let i = r.usize(stored.len());
+            stored.values().nth(i).unwrap().clone()
+        }
+        2 => gen_vec(r, cfg.dim, 5),
+        3 => gen_vec(r, cfg.dim, 4),
+        _ => gen_vec(r, cfg.dim, kind_bias),
+    };
+    match r.below(10) {
+        0 => format!("qb {k} {}", hex_bf16(&qv)),
+        1 if r.chance(1, 3) => format!("qx {k} {} {}", r.pick(&["nan", "inf", "dim"]), r.pick(&["f", "b"])),
+        _ => {
+            // f32 queries need not be bf16-representable
+            let qv: Vec<f32> = if r.chance(1, 2) { qv.iter().map(|x| x + (r.below(1000) as f32) * 1e-6).collect() } else { qv };
+            format!("q {k} {}", hex_f32(&qv))
+        }
+    }
+}
+
+/// history case: inserts / removes / re-inserts, queries, flushes, interrupted flushes
+fn gen_history(r: &mut Rng, big: bool) -> Vec<String> {
+    let cfg = pick_cfg(r);
+    let mut ops = vec![cfg.line()];
+    let kind = r.below(4);
+    let universe = if big { r.range(40, 160) as u64 } else { r.range(3, 30) as u64 };
+    let nops = if big { r.range(80, 260) } else { r.range(8, 70) };
+    let mut stored: BTreeMap<u64, Vec<f32>> = BTreeMap::new();
+    let mut crashed = false;
+    for _ in 0..nops {
+        let c = r.below(100);
+        if crashed && c < 30 {
+            ops.push("reindex".into());
+            crashed = false;
+        } else if c < 45 || stored.is_empty() {
+            let id = r.below(universe);
+            let kk = if r.chance(1, 8) { r.below(5) } else { kind };
+            let v = if r.chance(1, 10) && !stored.is_empty() { stored.values().nth(r.usize(stored.len())).unwrap().clone() } else { gen_vec(r, cfg.dim, kk) };
+            ops.push(format!("ins {id} {}", hex_bf16(&v)));
+            stored.entry(id).or_insert(v); // a duplicate insert is rejected by the index
+        } else if c < 62 {
+            let id = if r.chance(4, 5) { *stored.keys().nth(r.usize(stored.len())).unwrap() } else { r.below(universe) };
+            ops.push(format!("rm {id}"));
+            stored.remove(&id);
+        } else if c < 90 {
+            ops.push(gen_query(r, &cfg, &stored, kind));
+        } else if c < 94 {
+            ops.push("flush".into());
+        } else if c < 98 {
+            if crashed {
+                ops.push("reindex".into());
+            }
+            ops.push(format!("crash {}", r.below(1000)));
+            crashed = true;
+        } else {
+            if crashed {
+                ops.push("reindex".into());
+                crashed = false;
+            }
+            ops.push("reload".into());
+        }
+    }
+    if crashed {
+        ops.push(gen_query(r, &cfg, &stored, kind));
+        ops.push("reindex".into());
+    }
+    for _ in 0..r.range(2, 6) {
+        ops.push(gen_query(r, &cfg, &stored, kind));
+    }
+    ops
+}
+
+/// explicit, possibly malformed graph loaded through `load_all`: dangling edges, self loops,
+/// duplicate edges, asymmetric edges, edges on layers the target does not have, entry point with a
+/// wrong layer tag or dangling, ids without blobs
+fn gen_graph(r: &mut Rng) -> Vec<String> {
+    let dim = r.range(2, 8) as usize;
+    let metric = *r.pick(&['e', 'c', 'i', 'm']);
+    let efs = *r.pick(&[1usize, 1, 2, 3, 5, 50]);
+    let max_layers = *r.pick(&[1u8, 2, 3, 4]);
+    let n = r.range(1, 24) as usize;
+    let universe = (n as u64) * 2 + 2;
+    let mut ids: Vec<u64> = vec![];
+    while ids.len() < n {
+        let i = r.below(universe);
+        if !ids.contains(&i) {
+            ids.push(i);
+        }
+    }
+    let kind = r.below(3);
+    let missing_some = r.chance(1, 4);
+    let mut id_set: Vec<u64> = ids.clone();
+    let mut blobs = vec![];
+    for &id in &ids {
+        if missing_some && r.chance(1, 5) {
+            continue; // id in the id set, but no blob
+        }
+        let layer = if r.chance(2, 3) { 0 } else { r.below(max_layers as u64) };
+        let lists: Vec<String> = (0..=layer)
+            .map(|_| {
+                let deg = r.below(6);
+                let l: Vec<u64> = (0..deg).map(|_| if r.chance(5, 6) { ids[r.usize(ids.len())] } else { r.below(universe + 3) }).collect();
+                if l.is_empty() { "-".to_string() } else { join(l, ",") }
+            })
+            .collect();
+        blobs.push(format!("gn {id} {layer} {} {}", hex_bf16(&gen_vec(r, dim, kind)), lists.join(";")));
+    }
+    if r.chance(1, 6) {
+        // blobs that the id set does not mention (orphans: never loaded)
+        let id = universe + 7;
+        blobs.push(format!("gn {id} 0 {} -", hex_bf16(&gen_vec(r, dim, kind))));
+    }
+    if r.chance(1, 8) {
+        id_set.retain(|_| r.chance(4, 5));
+    }
+    id_set.sort();
+    let (eid, elayer) = match r.below(6) {
+        0 => (r.below(universe + 3), r.below(5)),
+        1 => (ids[r.usize(ids.len())], r.below(6)),
+        _ => (ids[r.usize(ids.len())], r.below(max_layers as u64)),
+    };
+    let mut ops = vec![format!("g {dim} {metric} {efs} {max_layers} {eid} {elayer} {}", if id_set.is_empty() { "-".to_string() } else { join(&id_set, ",") })];
+    ops.extend(blobs);
+    ops.push("gload".into());
+    let cfg = Cfg { dim, metric, strategy: 'h', m: 4, efc: 8, efs, max_layers, reconnect: false };
+    let stored: BTreeMap<u64, Vec<f32>> = BTreeMap::new();
+    for _ in 0..r.range(2, 8) {
+        ops.push(gen_query(r, &cfg, &stored, kind));
+    }
+    // k relative to n
+    ops.push(format!("q {} {}", n + 1, hex_f32(&gen_vec(r, dim, kind))));
+    ops.push(format!("q {} {}", n, hex_f32(&gen_vec(r, dim, kind))));
+    if r.chance(1, 3) {
+        ops.push(format!("rm {}", ids[r.usize(ids.len())]));
+        ops.push(gen_query(r, &cfg, &stored, kind));
+        ops.push(format!("ins {} {}", universe + 9, hex_bf16(&gen_vec(r, dim, kind))));
+        ops.push(gen_query(r, &cfg, &stored, kind));
+    }
+    ops
+}
+
+// ------------------------------------------------------------------------------------------------
+// main
+// ------------------------------------------------------------------------------------------------
+
 fn main() {
-    let a = vh_common::Args::parse();
-    let r = vh_common::Report::new("C12", &a, "stub");
-    r.write(&a);
+    let args = Args::parse();
+    let mut rep = Report::new(
+        "C12",
+        &args,
+        "case = one op list: either a history (cfg; 8..260 insert/remove/re-insert/query/flush/interrupted-flush+load/reindex/reload ops over \
+         seeded vectors; 4 metrics, 2 strategies, dim 2..64) or an explicit, possibly malformed durable graph loaded with load_all and then \
+         queried; every query is compared with the Lean model on the graph extracted from the real index and checked by the brute-force \
+         oracle; distinct = distinct op list; non-trivial = at least one query answered with a non-empty list",
+    );
+    let rt = tokio::runtime::Builder::new_current_thread().build().unwrap();
+    let mut model = ModelProc::from_args(&args);
+    if let Some(m) = model.as_mut() {
+        let c = m.ask("consts");
+        let want = format!(
+            "MAX_EF_SEARCH={} SEARCH_MAX_ATTEMPTS={} F32_MAX_KEY={}",
+            anda_db_hnsw::HnswConfig::MAX_EF_SEARCH,
+            anda_db_hnsw::HnswIndex::SEARCH_MAX_ATTEMPTS,
+            key(f32::MAX).unwrap()
+        );
+        if c != want {
+            rep.disagreement("constants", &["consts".into()], &c, &want);
+        }
+    }
+
+    let mut cases: Vec<(String, Vec<String>)> = vec![];
+    if let Some(p) = &args.replay {
+        cases.push(("replay".into(), read_replay(p)));
+    } else {
+        if let Some(dir) = &args.corpus {
+            cases.extend(read_corpus(dir));
+        }
+        let n_hist = args.budget(700, 30000);
+        let n_big = args.budget(40, 2500);
+        let n_graph = args.budget(1500, 80000);
+        let mut i = 0u64;
+        for _ in 0..n_hist {
+            cases.push((format!("hist{i}"), gen_history(&mut Rng::for_case(args.seed, i), false)));
+            i += 1;
+        }
+        for _ in 0..n_big {
+            cases.push((format!("big{i}"), gen_history(&mut Rng::for_case(args.seed, i), true)));
+            i += 1;
+        }
+        for _ in 0..n_graph {
+            cases.push((format!("graph{i}"), gen_graph(&mut Rng::for_case(args.seed, i))));
+            i += 1;
+        }
+    }
+
+    for (name, ops) in &cases {
+        if let Some(l) = ops.first()
+            && l.starts_with("recall ")
+        {
+            // replay of a recall measurement: `recall <workload> <seed>`
+            let t: Vec<&str> = l.split_whitespace().collect();
+            if t.len() == 3 {
+                recall::one(&rt, t[1], t[2].parse().unwrap_or(0), &mut rep);
+            }
+            continue;
+        }
+        let out = run_case(&rt, ops, &mut model, &mut rep, true);
+        if let Some(f) = out.first_failure
+            && args.replay.is_none()
+        {
+            // try to turn the failure into a deterministic explicit-graph case and shrink that
+            let base: Vec<String> = f.graph_case.clone().unwrap_or_else(|| ops.clone());
+            let kind = f.kind.clone();
+            let still = |cand: &[String], model: &mut Option<ModelProc>| -> bool {
+                let mut scratch = Report::new("C12", &args, "");
+                let o = run_case(&rt, cand, model, &mut scratch, false);
+                o.first_failure.is_some_and(|g| g.kind == kind)
+            };
+            let deterministic = f.graph_case.is_some() && still(&base, &mut model);
+            let base = if deterministic { base } else { ops.clone() };
+            let small = shrink(base, |cand| cand.first().is_some_and(|l| l.starts_with("cfg ") || l.starts_with("g ")) && still(cand, &mut model), 150);
+            let mut scratch = Report::new("C12", &args, "");
+            run_case(&rt, &small, &mut model, &mut scratch, true);
+            let fresh = if f.is_oracle { scratch.oracle_failures.first().cloned() } else { scratch.disagreements.first().cloned() };
+            let list = if f.is_oracle { &mut rep.oracle_failures } else { &mut rep.disagreements };
+            if let (Some(last), Some(mut fresh)) = (list.last_mut(), fresh) {
+                fresh["case"] = json!(name);
+                fresh["deterministic_replay"] = json!(deterministic);
+                *last = fresh;
+            }
+        }
+        if rep.samples.len() < 4 && ops.len() < 40 {
+            rep.sample(json!({"case": name, "ops": ops.iter().map(|o| if o.len() > 90 { format!("{}…", &o[..90]) } else { o.clone() }).collect::<Vec<_>>()}));
+        }
+    }
+
+    if args.replay.is_none() {
+        recall::suite(&rt, &args, &mut rep);
+    }
+    rep.write(&args);
 }
